@@ -2,7 +2,8 @@
 """The program run-mode tests start: replays a schedule.
 
 usage: child.py SCHEDULE.json [any further words ...]
-schedule: {"chunks": [[delay_s, text], ...], "stdout": [[index_of_chunk_before_which, text], ...], "status": n, "linger": s}
+schedule: {"chunks": [[delay_s, text], ...], "stdout": [[index_of_chunk_before_which, text], ...], "status": n, "linger": s,
+           "close_err": bool (close standard error after the last write, before lingering)}
 Reports its own argument vector and WAYLAND_DEBUG on stdout (marked), writes the chunks to stderr, exits with the status.
 """
 import json, os, sys, time
@@ -22,6 +23,8 @@ for i, (delay, text) in enumerate(s['chunks']):
 for t in marks.get(len(s['chunks']), []):
     sys.stdout.write('CHILD-STDOUT ' + t + '\n')
     sys.stdout.flush()
+if s.get('close_err'):
+    os.close(2)
 if s.get('linger'):
     time.sleep(s['linger'])
 os._exit(s['status'])
